@@ -346,7 +346,7 @@ def build_source(decls, obs):
 def run(chk, tier, seed):
     common.build_capy()
     rnd = random.Random(seed)
-    structs = curated_structs() + gen_structs(rnd, 8 if tier == 'quick' else 60)
+    structs = curated_structs() + gen_structs(rnd, 8 if tier == 'quick' else 240)
     sizes = [1, 2, 3, 4, 5, 7, 8, 9, 12, 15, 16, 17, 24, 32, 33, 64] if tier == 'quick' else list(range(1, 65))
     obs = gen_obligations(structs) + local_obligations()
     abi_obs, abi_decls = abi_obligations(sizes, rnd)
